@@ -763,7 +763,11 @@ int tls12_do_accept(TLS_CONNECT *conn)
 		server_exts_len = 0;
 		curve = TLS_curve_sm2p256v1;
 
-		tls_process_client_hello_exts(client_exts, client_exts_len, server_exts, &server_exts_len, sizeof(server_exts));
+		if (tls_process_client_hello_exts(client_exts, client_exts_len, server_exts, &server_exts_len, sizeof(server_exts)) != 1) {
+			error_print();
+			tls_send_alert(conn, TLS_alert_decode_error);
+			goto end;
+		}
 
 
 
